@@ -126,6 +126,41 @@ def _solve_task(task):
     return gname, k, r, model, backend, dt + dt0
 
 
+def _replay_child(conn, g, stem, vals):
+    try:
+        conn.send(tuple(g.replay(stem, vals)))
+    except BaseException as e:
+        conn.send(('raised', '%s: %s' % (type(e).__name__, e)))
+    finally:
+        conn.close()
+
+
+def _isolated_replay(g, stem, vals, timeout=600):
+    """the replay runs the real (possibly natively compiled) code: do it in a forked child so that a native crash cannot take the checker down"""
+    ctx = mp.get_context('fork')
+    parent, child = ctx.Pipe(duplex=False)
+    pr = ctx.Process(target=_replay_child, args=(child, g, stem, vals))
+    pr.daemon = False
+    pr.start()
+    child.close()
+    res = None
+    if parent.poll(timeout):
+        try:
+            res = parent.recv()
+        except EOFError:
+            res = None
+    pr.join(5)
+    if pr.is_alive():
+        pr.kill()
+        pr.join()
+        return False, 'replay did not finish within %d s' % timeout
+    if res is None:
+        return True, 'the real code terminated the replay process (exit code %r: native crash) on the replay inputs' % (pr.exitcode,)
+    if res[0] == 'raised':
+        raise RuntimeError(res[1])
+    return res
+
+
 def _finish_record(rec, r, model, backend, dt, g):
     rec['backend'] = backend
     rec['seconds'] = round(dt, 4)
@@ -139,7 +174,7 @@ def _finish_record(rec, r, model, backend, dt, g):
                 try:
                     from fractions import Fraction
                     vals = {k: (float(Fraction(v)) if not isinstance(v, bool) else v) for k, v in rec['model'].items()}
-                    reproduced, text = g.replay(rec['stem'], vals)
+                    reproduced, text = _isolated_replay(g, rec['stem'], vals)
                     rec['replay'] = {'reproduced': bool(reproduced), 'text': str(text)[:2000]}
                 except Exception as e:
                     rec['replay'] = {'reproduced': False, 'text': 'replay harness raised %s: %s' % (type(e).__name__, e)}
@@ -168,7 +203,7 @@ def _ob_record(ob, g):
             try:
                 from fractions import Fraction
                 vals = {k: (float(Fraction(v)) if not isinstance(v, bool) else v) for k, v in rec['model'].items()}
-                reproduced, text = g.replay(ob.stem, vals)
+                reproduced, text = _isolated_replay(g, ob.stem, vals)
                 rec['replay'] = {'reproduced': bool(reproduced), 'text': str(text)[:2000]}
             except Exception as e:
                 rec['replay'] = {'reproduced': False, 'text': 'replay harness raised %s: %s' % (type(e).__name__, e)}
@@ -200,6 +235,50 @@ def load_baseline(prop):
 # ----------------------------------------------------------------------------
 # main
 
+class _Pools(object):
+    """owns the current process pool; a broken pool (a worker was killed) is abandoned without waiting for it"""
+    def __init__(self, pool):
+        self.current = pool
+        self.broken = []
+
+    def replace(self, pool):
+        self.broken.append(self.current)
+        for proc in list((getattr(self.current, '_processes', None) or {}).values()):
+            try:
+                proc.kill()
+            except Exception:
+                pass
+        try:
+            self.current.shutdown(wait=False, cancel_futures=True)
+        except Exception:
+            pass
+        self.current = pool
+        return pool
+
+    def __enter__(self):
+        return self
+
+    def __exit__(self, *exc):
+        procs = list((getattr(self.current, '_processes', None) or {}).values())
+        try:
+            self.current.shutdown(wait=not self.broken, cancel_futures=True)
+        except Exception:
+            pass
+        if self.broken:
+            for proc in procs:
+                try:
+                    proc.kill()
+                except Exception:
+                    pass
+        for p_ in self.broken:
+            for proc in list((getattr(p_, '_processes', None) or {}).values()):
+                try:
+                    proc.kill()
+                except Exception:
+                    pass
+        return False
+
+
 def main(argv=None):
     ap = argparse.ArgumentParser()
     ap.add_argument('prop')
@@ -227,7 +306,8 @@ def main(argv=None):
     groups = [g for g in mod.GROUPS if tier in g.tiers and (a.group is None or re.search(a.group, g.name))]
     results = []
     ctx = mp.get_context('fork')
-    with cf.ProcessPoolExecutor(max_workers=max(1, a.jobs), mp_context=ctx) as ex:
+    with _Pools(cf.ProcessPoolExecutor(max_workers=max(1, a.jobs), mp_context=ctx)) as pools:
+        ex = pools.current
         futs = {ex.submit(_run_group, prop, g.name, tier, seed): g for g in groups}
         for f in cf.as_completed(futs):
             g = futs[f]
@@ -240,6 +320,33 @@ def main(argv=None):
             results.append(r)
             if a.verbose:
                 print('  group %-45s %6.1fs  obligations=%d error=%s' % (r['group'], r.get('wall_s', 0), len(r['obligations']), bool(r['error'])))
+        # a worker that dies (native crash of the code under check inside a bounded group, OOM kill) breaks the whole pool: every group that
+        # was lost is re-run alone in a fresh single-worker pool, so that only the group that really kills its process stays lost
+        died = [r for r in results if (r.get('error') or '').startswith('worker died')]
+        if died:
+            gbyname = {g.name: g for g in groups}
+            for r in died:
+                g = gbyname[r['group']]
+                rr = None
+                for attempt in range(2):
+                    try:
+                        with cf.ProcessPoolExecutor(max_workers=1, mp_context=ctx) as ex1:
+                            rr = ex1.submit(_run_group, prop, g.name, tier, seed).result()
+                        break
+                    except BaseException as e:
+                        rr = None
+                        last = e
+                if rr is not None:
+                    results[results.index(r)] = rr
+                elif g.kind == 'bounded':
+                    # the code under check terminated the interpreter twice on this family: the bounded contract could not even be evaluated
+                    results[results.index(r)] = dict(r, error=None, bounded={'family': g.name, 'evaluations': 1, 'distinct_nontrivial': 0, 'rule': g.bounded_rule, 'samples': [],
+                                                                             'failures': [{'obligation': g.name + '.post', 'key': 'process-terminated', 'input': 'family of group ' + g.name,
+                                                                                           'detail': 'the code under check terminated the worker process (native crash: %r) in two isolated runs'
+                                                                                                     % (last,), 'no_input': True}], 'files': {}})
+                else:
+                    r['error'] = 'worker died twice in isolation: %r' % (last,)
+            ex = pools.replace(cf.ProcessPoolExecutor(max_workers=max(1, a.jobs), mp_context=ctx))
         # phase 2: all residual SMT queries of all groups on the same pool
         tasks = []
         bygroup = {r['group']: r for r in results}
@@ -332,7 +439,7 @@ def verdict(prop, mod, tier, seed, groups, results, t0, a):
                 else:
                     violations.append((r['group'], {'name': fl['obligation'], 'stem': fl['obligation'], 'bounded': True,
                                                     'model': fl.get('input'), 'detail': fl.get('detail', ''),
-                                                    'replay': {'reproduced': True, 'text': fl.get('detail', '')},
+                                                    'replay': {'reproduced': not fl.get('no_input'), 'text': fl.get('detail', '')},
                                                     'replay_code': fl.get('replay_code'), 'key': fl['key']}))
     for (gname, stem), obs in canary_fail.items():
         if stem in proved_stems:
@@ -464,4 +571,13 @@ def replay_file(path):
 
 
 if __name__ == '__main__':
-    sys.exit(main())
+    try:
+        _rc = main()
+    except SystemExit:
+        raise
+    except BaseException as _e:        # an uncaught exception must never look like exit 1 (violation)
+        import traceback as _tb
+        _tb.print_exc()
+        print('CHECKER-BROKEN uncaught %s: %s' % (type(_e).__name__, _e))
+        _rc = 3
+    sys.exit(_rc)
